@@ -79,8 +79,33 @@ def module_funcs(ctx, rel, cls=None, exclude=()):
     return out
 
 
+def module_consts(ctx, rel):
+    """{name: value node} for module-level names of `rel` that are bound exactly once, at top level, to a literal (number, string, tuple / list / dict
+    of literals and names): constants and lookup tables a clean-up may have moved out of a function.  Pass as Sem(..., consts=...)."""
+    m = ctx.src.mod(rel)
+    count, val = {}, {}
+    for st in m.tree.body:
+        tg = []
+        if isinstance(st, ast.Assign):
+            tg = st.targets
+        elif isinstance(st, ast.AnnAssign) and st.value is not None:
+            tg = [st.target]
+        elif isinstance(st, (ast.AugAssign,)):
+            tg = [st.target]
+        for t in tg:
+            for x in ast.walk(t):
+                if isinstance(x, ast.Name):
+                    count[x.id] = count.get(x.id, 0) + 1
+        if isinstance(st, (ast.Assign, ast.AnnAssign)) and len(tg) == 1 and isinstance(tg[0], ast.Name) and not isinstance(st, ast.AugAssign):
+            v = st.value
+            if all(isinstance(x, (ast.Constant, ast.Tuple, ast.List, ast.Dict, ast.Name, ast.UnaryOp, ast.USub, ast.UAdd, ast.Load, ast.BinOp, ast.operator,
+                                  ast.Attribute)) for x in ast.walk(v)):
+                val[tg[0].id] = v
+    return {k: v for k, v in val.items() if count.get(k) == 1}
+
+
 class Sem:
-    def __init__(self, ctx, fn, cond=None, pinned=None, call=None, binop=None, env=None, run=True, subscript=None, inline=None, erase_T=False, loop_once=False, loop_unroll=0, forward_stores=False):
+    def __init__(self, ctx, fn, cond=None, pinned=None, call=None, binop=None, env=None, run=True, subscript=None, inline=None, erase_T=False, loop_once=False, loop_unroll=0, forward_stores=False, consts=None):
         self.ctx = ctx
         self.fn = fn
         self.ev = AutoEvaluator(fn, src=ctx.src, cond=cond, pinned=pinned, call=call, binop=binop, env=env, subscript=subscript)
@@ -90,6 +115,7 @@ class Sem:
         self.ev.loop_once = loop_once
         self.ev.loop_unroll = loop_unroll
         self.ev.forward_stores = forward_stores
+        self.ev.module_consts = consts
         if run:
             body = fn.body
             self.ev.run(body)
